@@ -92,6 +92,8 @@ impl<'a> Visitor for Enumerate<'a> {
         // argument errors, cancellation next to zero)
         let mut extremes = extremes;
         extremes.extend([70.0, -70.0, 100.0, -100.0, 50.0, -50.0, 20.0, -1000.0, 1048576.0, -1048576.0, 1.2345678e-6, -3.3e-7]);
+        // close to the end points of (-1, 1) and to 1 from above (asin, acos, atanh, acosh, ln_1p)
+        extremes.extend([0.9999, -0.9999, 0.99999999, 1.0001]);
         if F::PREC == 53 {
             extremes.extend([690.0, -690.0, 1000.0, 400.0, -400.0]);
         }
@@ -293,6 +295,18 @@ macro_rules! cmp_checks {
                                     sig: format!("compare {op} {}", $name),
                                     case: json!({"type": $name, "a": a as f64, "b": b as f64, "variant_a": va, "variant_b": vb}),
                                     what: format!("{a:e} {op} {b:e} is {want} for floats but {got} for {}", $name),
+                                });
+                            }
+                        }
+                        // abs_sub (the positive difference) branches on the comparison of the real parts
+                        {
+                            let got = num_traits::Signed::abs_sub(&x, &y).re;
+                            let want = num_traits::Signed::abs_sub(&a, &b);
+                            if got.to_bits() != want.to_bits() && !(got.is_nan() && want.is_nan()) {
+                                $st.violation(Violation {
+                                    sig: format!("compare abs_sub {}", $name),
+                                    case: json!({"type": $name, "a": a as f64, "b": b as f64}),
+                                    what: format!("abs_sub({a:e},{b:e}) has real part {got:e}, the float gives {want:e}"),
                                 });
                             }
                         }
